@@ -149,12 +149,12 @@ Proof.
   unfold gebv_numpy in Ew. destruct (ncols_ok _ _); [|discriminate]. injection Ew as <-. now rewrite matmul_length, qz_length.
 Qed.
 
-Lemma var_G_perm g gt ix vG : gt_ok gt -> Permutation ix (seq 0 (length (dosage gt))) -> var_G g gt = Some vG ->
-  exists vG', var_G g (gt_take ix gt) = Some vG' /\ qeql vG' vG.
+Lemma var_G_perm g gt arg ix vG : gt_ok gt -> Permutation ix (seq 0 (length (dosage gt))) -> var_G g gt arg = Some vG ->
+  exists vG', var_G g (gt_take ix gt) arg = Some vG' /\ qeql vG' vG.
 Proof.
   intros Hok P E. unfold var_G in *. pose proof (perm_in_range _ _ P) as R. rewrite design_take by assumption.
-  destruct (gegv_numpy g (design g gt)) as [w|] eqn:Ew; [|discriminate]. injection E as <-.
-  assert (R' : in_range (length (design g gt)) ix) by (now rewrite design_length).
+  destruct (gegv_numpy g (design g gt arg)) as [w|] eqn:Ew; [|discriminate]. injection E as <-.
+  assert (R' : in_range (length (design g gt arg)) ix) by (now rewrite design_length).
   rewrite (gegv_numpy_takes g _ w ix R' Ew). eexists; split; [reflexivity|].
   apply cols_popvar_perm.
   unfold gegv_numpy in Ew. destruct (ncols_ok _ _); [|discriminate]. injection Ew as <-. now rewrite matmul_length, qz_length, design_length.
@@ -181,10 +181,10 @@ Proof.
   rewrite (nth_map_in (fun j => col 0 j w) 0%nat []) by (now rewrite seq_length). now rewrite seq_nth.
 Qed.
 
-Lemma var_G_is_variance_of_gegv g gt l vG v lab k : shaped g -> var_G g gt = Some vG -> gegv g gt l = Some (v, lab) -> (k < g_t g)%nat ->
+Lemma var_G_is_variance_of_gegv g gt arg l vG v lab k : shaped g -> var_G g gt arg = Some vG -> gegv g gt arg l = Some (v, lab) -> (k < g_t g)%nat ->
   nth k vG 0 == popvar (col 0 k v).
 Proof.
-  intros S EA EG Hk. unfold var_G, gegv in *. destruct (gegv_numpy g (design g gt)) as [w|] eqn:Ew; [|discriminate].
+  intros S EA EG Hk. unfold var_G, gegv in *. destruct (gegv_numpy g (design g gt arg)) as [w|] eqn:Ew; [|discriminate].
   injection EA as <-. injection EG as <- <-.
   assert (Rw : rows_len (g_t g) w).
   { unfold gegv_numpy in Ew. destruct (ncols_ok _ _); [|discriminate]. injection Ew as <-. apply matmul_rows. now apply shaped_gv. }
